@@ -215,20 +215,34 @@ class World:
         self.indexers = indexing.OperatorIndexers()
         self.incarnation = getattr(self, 'incarnation', 0) + 1
 
+    _installed = 0
+    _saved = None
+
+    def _install(self):
+        """Rebind the stubs (re-entrant: several process() calls of one World may be in flight)."""
+        from kopf._core.actions import progression as _progression
+        if World._installed == 0:
+            World._saved = (api.patch, _progression.datetime, _progression.iso8601)
+            orig_dt = _progression.datetime
+            if orig_dt.__name__ == 'datetime' and getattr(orig_dt, '__file__', None):   # the real module: go virtual
+                if self.tmode == 'symbolic':
+                    from vkopf import shimdt
+                    _progression.datetime, _progression.iso8601 = shimdt.datetime_module, shimdt.iso8601_module
+                else:
+                    from vkopf import vclock
+                    _progression.datetime = vclock.module
+        World._installed += 1
+        api.patch = self.server.patch
+
+    def _restore(self):
+        from kopf._core.actions import progression as _progression
+        World._installed -= 1
+        if World._installed == 0:
+            api.patch, _progression.datetime, _progression.iso8601 = World._saved
+
     async def process(self, raw_type, body=None, **kw):
         body = copy.deepcopy(self.server.obj if body is None else body)
-        orig = api.patch
-        api.patch = self.server.patch
-        from kopf._core.actions import progression as _progression
-        orig_dt = _progression.datetime
-        orig_iso = _progression.iso8601
-        if orig_dt.__name__ == 'datetime' and getattr(orig_dt, '__file__', None):   # the real module: go virtual
-            if self.tmode == 'symbolic':
-                from vkopf import shimdt
-                _progression.datetime, _progression.iso8601 = shimdt.datetime_module, shimdt.iso8601_module
-            else:
-                from vkopf import vclock
-                _progression.datetime = vclock.module
+        self._install()
         try:
             return await processing.process_resource_event(
                 lifecycle=self.lifecycle, indexers=self.indexers, registry=self.registry,
@@ -236,8 +250,7 @@ class World:
                 resource=self.resource, raw_event={'type': raw_type, 'object': body},
                 event_queue=asyncio.Queue(), no_throttling=kw.pop('no_throttling', True), **kw)
         finally:
-            api.patch = orig
-            _progression.datetime, _progression.iso8601 = orig_dt, orig_iso
+            self._restore()
 
     def run(self, coro, **kw):
         return self.loop.run(coro, **kw)
